@@ -306,9 +306,9 @@ fn prefixes(ctx: &Ctx, rep: &mut Report, k: u64) {
 }
 
 pub fn run(ctx: &Ctx, rep: &mut Report) {
-    let n_t = ctx.n(26 * 2 * 12, 26 * 2 * 400);
-    let n_m = ctx.n(3500, 100_000);
-    let n_p = ctx.n(700, 20_000);
+    let n_t = ctx.n(26 * 2 * 60, 26 * 2 * 1200);
+    let n_m = ctx.n(20_000, 400_000);
+    let n_p = ctx.n(3000, 60_000);
     for k in ctx.cases(n_t + n_m + n_p) {
         rep.cur_case = k;
         crate::ctx::begin_case(k);
